@@ -133,7 +133,7 @@ def judge(ctx, sess, proc, rng, ninputs, emit=True):
 
 def plan(tier, seed):
     quick = tier == "quick"
-    return {"nshards": 16, "params": {"soft_s": 300 if quick else 1200, "nprograms": 40 if quick else 450, "ninputs": 4 if quick else 10}, "hard_timeout_s": 700 if quick else 3400}
+    return {"nshards": 16, "params": {"soft_s": 600 if quick else 1800, "nprograms": 40 if quick else 450, "ninputs": 4 if quick else 10}, "hard_timeout_s": 1200 if quick else 4000}
 
 
 def shard(ctx):
